@@ -1,4 +1,4 @@
-\* C15 pure model checking of the ideal specification (Faithful = FALSE: no deviation edge), quick bound
+\* C15 pure model checking of the ideal specification (Faithful = FALSE: no deviation edge; both hold variants), quick bound
 SPECIFICATION Spec
 CONSTANTS
   Peers = {"p1"}
@@ -12,6 +12,7 @@ CONSTANTS
   AdvSteps = {1, 2}
   HoldStrict = TRUE
   ExpiryClosed = TRUE
+  HoldBy = "either"
   Faithful = FALSE
 INVARIANTS TypeOK LevelBounded
 PROPERTIES LevelFormula OnlyRecalcSwitches OnOnlyIfReached OnWhenReached OffOnlyAfterHold ModePins
